@@ -18,6 +18,7 @@ import (
 	chart "helm.sh/helm/v4/pkg/chart/v2"
 	"helm.sh/helm/v4/pkg/cli/values"
 	"helm.sh/helm/v4/pkg/getter"
+	"helm.sh/helm/v4/pkg/action"
 	"helm.sh/helm/v4/pkg/lint"
 	"helm.sh/helm/v4/pkg/lint/support"
 
@@ -225,7 +226,9 @@ func c14GenValues(t *rapid.T, label string, bias int) map[string]interface{} {
 }
 
 type c14Chart struct {
-	Name     string                 `json:"name"`
+	Name string `json:"name"` // the name the parent addresses it by (the alias when Real is set)
+	// Real, when set, is the chart's own name: the dependency is then declared as {name: Real, alias: Name}
+	Real     string                 `json:"real,omitempty"`
 	Cond     string                 `json:"condition,omitempty"` // "<name>.enabled" or ""
 	Schema   map[string]interface{} `json:"schema,omitempty"`
 	Defaults map[string]interface{} `json:"defaults"`
@@ -239,11 +242,20 @@ type c14Case struct {
 	Skip    bool      `json:"skipSchemaValidation,omitempty"`
 	Seq     string    `json:"sequence"` // install | upgrade | skip-install-then-upgrade | same-version-new-schema-upgrade
 	Backend string    `json:"backend"`
+	// CreateNS: installs run with --create-namespace (one more request that must not precede the schema check)
+	CreateNS bool `json:"createNamespace,omitempty"`
+}
+
+func (c *c14Chart) own() string {
+	if c.Real != "" {
+		return c.Real
+	}
+	return c.Name
 }
 
 func (c *c14Chart) build(version string) *chart.Chart {
 	ch := &chart.Chart{
-		Metadata:  &chart.Metadata{APIVersion: "v2", Name: c.Name, Version: version},
+		Metadata:  &chart.Metadata{APIVersion: "v2", Name: c.own(), Version: version},
 		Values:    deepCopyVal(c.Defaults).(map[string]interface{}),
 		Templates: []*chart.File{{Name: "templates/cm.yaml", Data: []byte("apiVersion: v1\nkind: ConfigMap\nmetadata:\n  name: cm-" + c.Name + "\ndata:\n  v: {{ toJson .Values | quote }}\n")}},
 	}
@@ -252,7 +264,11 @@ func (c *c14Chart) build(version string) *chart.Chart {
 		ch.Schema = b
 	}
 	for _, d := range c.Deps {
-		ch.Metadata.Dependencies = append(ch.Metadata.Dependencies, &chart.Dependency{Name: d.Name, Version: version, Condition: d.Cond})
+		dep := &chart.Dependency{Name: d.own(), Version: version, Condition: d.Cond}
+		if d.Real != "" {
+			dep.Alias = d.Name
+		}
+		ch.Metadata.Dependencies = append(ch.Metadata.Dependencies, dep)
 		ch.AddDependency(d.build(version))
 	}
 	return ch
@@ -290,7 +306,19 @@ func c14GenCase(t *rapid.T) c14Case {
 	if rapid.IntRange(0, 2).Draw(t, "hasSide") == 0 {
 		root.Deps = append(root.Deps, mk("side", "side"))
 	}
+	// some dependencies are declared under an alias (their own chart name differs from the name the values use)
+	var aliasWalk func(x *c14Chart)
+	aliasWalk = func(x *c14Chart) {
+		for _, d := range x.Deps {
+			if rapid.IntRange(0, 3).Draw(t, "aliased-"+d.Name) == 0 {
+				d.Real = "real" + d.Name
+			}
+			aliasWalk(d)
+		}
+	}
+	aliasWalk(root)
 	c := c14Case{Root: root, Backend: rapid.SampledFrom([]string{"memory", "secret"}).Draw(t, "backend")}
+	c.CreateNS = rapid.IntRange(0, 2).Draw(t, "createNamespace") == 0
 	// user values through files and --set
 	for i, n := 0, rapid.IntRange(0, 2).Draw(t, "nFiles"); i < n; i++ {
 		tree := c14GenValues(t, fmt.Sprintf("file%d", i), 4)
@@ -451,7 +479,15 @@ func c14Judge(tb vt.TB, c c14Case) (lbls []string, nontrivial bool) {
 	}
 	w := world.New(c.Backend)
 	mkOp := func(kind string, ver string, root *c14Chart, vals map[string]interface{}, skip bool) *world.Op {
-		return &world.Op{Kind: kind, DisableHooks: true, SkipSchema: skip, Values: vals, ChartFn: func() *chart.Chart { return root.build(ver) }}
+		op := &world.Op{Kind: kind, DisableHooks: true, SkipSchema: skip, Values: vals, ChartFn: func() *chart.Chart { return root.build(ver) }}
+		if c.CreateNS && kind == "install" {
+			op.Customize = func(a interface{}) {
+				if in, ok := a.(*action.Install); ok {
+					in.CreateNamespace = true
+				}
+			}
+		}
+		return op
 	}
 	judgeOp := func(what string, op *world.Op, expect bool) bool {
 		pre := w.Backend.Snapshot()
@@ -636,7 +672,7 @@ func c14WriteChartDir(c *c14Chart, dir, version string) error {
 		}
 	}
 	for _, d := range c.Deps {
-		if err := c14WriteChartDir(d, filepath.Join(dir, "charts", d.Name), version); err != nil {
+		if err := c14WriteChartDir(d, filepath.Join(dir, "charts", d.own()), version); err != nil {
 			return err
 		}
 	}
@@ -650,7 +686,7 @@ func c14Prop(t *rapid.T) {
 }
 
 func TestC14(t *testing.T) {
-	evid.Extra("rule", "C14: chart trees app -> mid -> leaf, app -> side with a schema (from a generated family: type, required, enum, minimum/maximum, minLength, nested object with required / additionalProperties:false, array items) on any subset of the charts, conditions on subcharts, defaults at every level, parent sections, and user values arriving through 0-2 generated -f files and 0-2 --set arguments (merged by Options.MergeValues); sequences: install | upgrade over a schema-less baseline | install with skip-schema-validation then plain upgrade with the same chart and values | upgrade to the same chart version with schemas added. Oracle: a ~100-line reference evaluator for exactly this schema family applied to the reference-coalesced final values of every enabled chart: some chart violates (and skip is off) <=> template, server dry-run install, real install / upgrade fail with the schema error naming every violating chart, with no mutating request and no storage write; nobody violates => no schema error; with skip-schema-validation the gate is off; lint agrees for the root chart. Non-trivial = a violation that arrives from a non-default source or is confined to a subchart; distinct by the whole case.")
+	evid.Extra("rule", "C14: chart trees app -> mid -> leaf, app -> side with a schema (from a generated family: type, required, enum, minimum/maximum, minLength, nested object with required / additionalProperties:false, array items) on any subset of the charts, conditions on subcharts, dependencies declared under an alias, installs with and without --create-namespace, defaults at every level, parent sections, and user values arriving through 0-2 generated -f files and 0-2 --set arguments (merged by Options.MergeValues); sequences: install | upgrade over a schema-less baseline | install with skip-schema-validation then plain upgrade with the same chart and values | upgrade to the same chart version with schemas added. Oracle: a ~100-line reference evaluator for exactly this schema family applied to the reference-coalesced final values of every enabled chart: some chart violates (and skip is off) <=> template, server dry-run install, real install / upgrade fail with the schema error naming every violating chart, with no mutating request and no storage write; nobody violates => no schema error; with skip-schema-validation the gate is off; lint agrees for the root chart. Non-trivial = a violation that arrives from a non-default source or is confined to a subchart; distinct by the whole case.")
 	evid.Extra("assumptions", []string{"the reference evaluator covers exactly the generated schema family (no $ref, no combinators)", "lint is judged for the root chart's own schema only (lint without --with-subcharts looks at one chart)", "cases in which user values turn a subchart section into a non-table are counted, not judged"})
 	rapid.Check(t, c14Prop)
 }
